@@ -6,18 +6,12 @@ TB = ('Trusted: Coq 8.16.1 kernel and vm_compute (no native_compute); stdlib axi
       '(classical reals sig_forall_dec/sig_not_dec, classic, functional_extensionality_dep where Reals/Coquelicot/Interval are used); '
       'the hand-written Gallina model is tied to /repo by the correspondence check of this run (implementation outputs shipped as exact rationals, compared inside Coq); '
       'exact arithmetic (IEEE rounding not modelled; measured against a stated tolerance); Python harness (generators, encoding, parsing). ')
-CHECKS = {
- 'C08': dict(text='All clauses (lengths, zero start, trapezoid/rectangle increments, linearity, exactness for constant/linear acceleration, peak = max|.|, sign/scale laws) are Coq theorems over R about model/M_displacements.v; the model is tied to calc_velo_and_disp_from_accel_arr, AccSignal.velocity/.displacement/.pga/.pgv/.pgd and im.calc_peak by exact (integer x dyadic dt) and 1e-10-tolerance correspondence.',
-             note=TB, tech='Coq proof over R (induction on lists, lra/nra) + Q-model correspondence by vm_compute', ref='3/C08'),
- 'C09': dict(text='Lengths, monotonicity, final value = defining quadrature, sign invariance, alpha^2/|alpha| scaling and zero-padding invariance are Coq theorems over R for Arias, CAV, ISV, the |a| and |v| integrals and unit kinetic energy (model/M_im.v). Standardised CAV: window totals non-negative, non-decreasing and zero below the gate are proved; its upper bound CAV/9.81 and the interpolation between window ends are partial (checked on implementation outputs only). Tie: exact-domain and 1e-10 correspondence through eqsig.im.* on AccSignal objects.',
-             note=TB + 'cav_dp: numpy arange length per window observed, not modelled.', tech='Coq proof over R (list induction, lra/nra) + Q-model correspondence by vm_compute', ref='3/C09'),
- 'C10': dict(text='First/last-qualifying-index characterisation (with uniqueness), ordering 0<=start<=end<=duration, amplitude-scale invariance (array, Arias and any positively scaling custom measure), shift by k zeros, widening, bracketed-duration definition, empty case, antitonicity in the threshold and joint scaling are Coq theorems over R (model/M_im.v, lib/Where.v). Tie: exact correspondence of indices/times through calc_sig_dur_vals, calc_sig_dur (Arias + custom callables) and calc_brac_dur, thresholds placed on sample values.',
-             note=TB + 'For calc_sig_dur the cumulative series given to the model is the public measure function output on the same signal.', tech='Coq proof over R (np.where characterisation lemmas) + Q-model correspondence by vm_compute', ref='3/C10'),
- 'C11': dict(text='Membership characterisation (reported = index 0, first sample of the final plateau, and exactly the plateau starts entered and left by strict moves of opposite sign), ascending order, first=0, last=final plateau start, monotone-between and strict alternation of segment directions, n_cyc length are Coq theorems over R about the declarative model model/M_peaks.v. Partial: the max/min parity selection and the +0.5/0.25 n_cyc step clauses are not theorems; they are decided by the exhaustive correspondence (every series over a 5-level alphabet up to length 6/8) only. Tie: exact index comparison, exhaustive + random plateau-rich series through get_peak_array_indices (all/max/min) and get_n_cyc_array.',
-             note=TB + 'The model is declarative (a filter over indices), not a transliteration of the ediff1d/where pipeline: the exhaustive correspondence is what ties it to the code.', tech='Coq proof over R (order reasoning, list induction) + exhaustive small-alphabet correspondence by vm_compute', ref='3/C11'),
- 'C12': dict(text='Zero crossings at tol=0: membership characterisation (index 0, exact zeros - first of a run unless keep_adj_zeros - and the first sample after each strict sign change), ascending, starts at 0, tol>0 result is a subsequence of the tol=0 result: Coq theorems over R (model/M_peaks.v). Switched peaks: subsequence of the C11 peak list for every tol and ascending are theorems. Partial: one-per-excursion at the largest |value|, zero-valued turning points, no shared strict sign, global abs-max included and the tol-subsequence clause for switched peaks are not theorems; they are decided by the exhaustive correspondence (all series over {-2..2} to length 6/8, {-3..3} to 4/6) and by a subsequence checker evaluated on implementation outputs.',
-             note=TB, tech='Coq proof over R (filter characterisation, sublist lemmas) + exhaustive small-alphabet correspondence by vm_compute', ref='3/C12'),
-}
+# one JSON file per claimed property: harness/manifest_entries/Cxx.json with keys text, note, tech, ref
+CHECKS = {}
+_d = os.path.join(V, 'harness', 'manifest_entries')
+for _f in sorted(os.listdir(_d)):
+    if _f.endswith('.json'):
+        CHECKS[_f[:-5]] = json.load(open(os.path.join(_d, _f)))
 NA = {}
 ALL = ['C%02d' % i for i in range(1, 21)]
 
